@@ -294,3 +294,6 @@ func Shapes2() []Shape2 {
 	}
 	return out
 }
+
+// SegDist2 is the distance from (px,py) to the segment (ax,ay)-(bx,by).
+func SegDist2(px, py, ax, ay, bx, by float64) float64 { return segDist2(px, py, ax, ay, bx, by) }
